@@ -507,7 +507,10 @@ func (x *explorer) explore() (complete bool) {
 			seen[keys[i]] = true
 			// a node is worth expanding only if something can still happen below it
 			if c.used < x.sc.Depth || c.held || c.reopens < x.sc.Reopen {
-				if c.txUsed < x.sc.MaxTx || c.held {
+				// (a node whose writable transactions are used up is still
+				// expanded while ops remain: read-only transactions and rolled
+				// back writable ones run on top of its committed state)
+				if c.txUsed < x.sc.MaxTx || c.held || c.used < x.sc.Depth {
 					level = append(level, c)
 				}
 			}
